@@ -19,6 +19,7 @@
 use super::Command;
 use crate::Runtime;
 use crate::trap::run_exit_trap;
+use crate::trap::run_traps_for_caught_signals;
 use enumset::EnumSet;
 use itertools::Itertools as _;
 use std::ops::ControlFlow::{Break, Continue};
@@ -109,12 +110,25 @@ async fn execute_commands_in_pipeline<S: Runtime + 'static>(
         1 => commands[0].execute(env).await,
 
         _ => {
-            if env.controls_jobs() {
-                execute_job_controlled_pipeline(env, commands).await?
-            } else {
-                execute_multi_command_pipeline(env, commands).await?
+            let main_result = async {
+                if env.controls_jobs() {
+                    execute_job_controlled_pipeline(env, commands).await?
+                } else {
+                    execute_multi_command_pipeline(env, commands).await?
+                }
+                env.apply_errexit()
             }
-            env.apply_errexit()
+            .await;
+
+            // The commands have run in subshells, so no command has run traps
+            // in this shell. Run them here as after any other command.
+            let trap_result = run_traps_for_caught_signals(env).await;
+
+            match (main_result, trap_result) {
+                (_, Continue(())) => main_result,
+                (Continue(()), _) => trap_result,
+                (Break(main_divert), Break(trap_divert)) => Break(main_divert.max(trap_divert)),
+            }
         }
     }
 }
